@@ -152,7 +152,8 @@ def check_trades(repo, rep, tier):
                 trades = []
                 for i in range(k):
                     p = A(f"p{i}") if signs[i] != 0 else num(0)
-                    trades.append(Obj("ClosedTrade", name=f"T{i}", attrs={"to_dict": {"PNL": p, "type": types[i], "fee": A(f"f{i}"), "holding_period": A(f"h{i}")}}))
+                    trades.append(Obj("ClosedTrade", name=f"T{i}", attrs={"to_dict": {"PNL": p, "type": types[i], "fee": A(f"f{i}"), "holding_period": A(f"h{i}")},
+                                                                            "closed_at": num(1_600_000_000_000 + 60_000 * (i + 1)), "opened_at": num(1_600_000_000_000 + 60_000 * i)}))
                 return it, lambda it: it.call(FuncV(fn, mod, qual="trades"), [trades, [A("SB"), A("CB")]], {})
             try:
                 outs = explore(mk, 64)
@@ -214,6 +215,77 @@ def check_trades(repo, rep, tier):
                                                                               "streaks": [repr(m.get(x)) for x in ("winning_streak", "losing_streak", "current_streak")]} if n_cases % 9 == 1 else None)
     # empty trade list
     rep.floor(rid, 30)
+
+
+def check_streaks_chronological(repo, rep):
+    rid = "C16-R1b"
+    rep.rule(rid, "streaks follow from the PnL sequence in the order in which the trades were CLOSED: metrics.trades interpreted on a list "
+                  "whose storage order differs from its closed_at order (the fast simulator with several routes appends the trades of "
+                  "one symbol's whole chunk before the next symbol's) must report the streaks of the chronological sequence")
+    fn = repo.func(METRICS, "trades")
+    mod = repo.module(METRICS)
+    # storage order: win (closed 3rd), loss (closed 1st), loss (closed 2nd)  -> chronological: loss, loss, win
+    spec = [("p0", 1, 3), ("p1", -1, 1), ("p2", -1, 2)]
+    smp = {"SB": F(1000), "CB": F(1100), "p0": F(5), "p1": F(-2), "p2": F(-3), "f0": F(1, 10), "f1": F(1, 10), "f2": F(1, 10), "h0": F(60), "h1": F(60), "h2": F(60)}
+
+    def mk(dec):
+        it = Interp(repo, stubs=W.base_stubs(), samples=[dict(smp)], decisions=dec, ext_stubs=PANDAS)
+        exch = Obj("Exchange", name="exchange", attrs={"starting_assets": {"USDT": A("SB")}, "assets": {"USDT": A("CB")}})
+        exchanges = Obj("ExchangesState", name="store.exchanges", attrs={"storage": {"Sandbox": exch}})
+        app = Obj("AppState", name="store.app", attrs={"starting_time": num(1_600_000_000_000), "total_open_trades": num(0), "total_open_pl": num(0)})
+        it.overrides[f"{W.STORE}:store"] = Obj("StoreClass", name="store", attrs={"exchanges": exchanges, "app": app}, open_world=True)
+        it.stubs[f"{W.HELPERS}:app_currency"] = lambda i, a, kk: "USDT"
+        for h in ("max_drawdown", "cagr", "sharpe_ratio", "calmar_ratio", "sortino_ratio", "omega_ratio", "serenity_index"):
+            it.stubs[f"{METRICS}:{h}"] = lambda i, a, kk: Obj("Series", name="ratio", attrs={"iloc": [NAN]})
+        trades = [Obj("ClosedTrade", name=f"T{i}", attrs={"to_dict": {"PNL": A(pn), "type": "long", "fee": A(f"f{i}"), "holding_period": A(f"h{i}")},
+                                                          "closed_at": num(1_600_000_000_000 + 60_000 * order), "opened_at": num(1_600_000_000_000)})
+                  for i, (pn, sg, order) in enumerate(spec)]
+        return it, lambda it: it.call(FuncV(fn, mod, qual="trades"), [trades, [A("SB"), A("CB")]], {})
+    try:
+        outs = explore(mk, 64)
+    except NotInFragment as e:
+        raise AnalysisError(f"metrics.trades left the analysable fragment: {e}")
+    for out in outs:
+        if out.kind != "return" or not isinstance(out.value, dict):
+            rep.violation(rid, "streaks|raises", f"metrics.trades fails on an out-of-order trade list: {out.value!r}")
+            continue
+        m = out.value
+        got = tuple(int(m[k].const_value()) if isinstance(m.get(k), R) and m[k].is_const() else None for k in ("winning_streak", "losing_streak", "current_streak"))
+        want = (1, 2, 1)          # chronological PnL signs: -, -, +
+        if got != want:
+            rep.violation(rid, "streaks|storage-order", f"trades stored as (win closed 3rd, loss closed 1st, loss closed 2nd): (winning_streak, losing_streak, current_streak) = {got}, "
+                                                        f"the chronological PnL sequence -, -, + gives {want}")
+        rep.instance(rid, "out-of-order", {"streaks": got})
+    rep.floor(rid, 1)
+
+
+def check_strategy_metrics_memo(repo, rep):
+    rid = "C16-R5"
+    rep.rule(rid, "the metrics a running strategy reads (Strategy.metrics) are memoised: the memo key must cover everything the value is "
+                  "computed from - each argument of the memoised metrics.trades(...) call must occur in the key expression (resolved "
+                  "through local assignments) - or a later read serves the metrics of an earlier moment")
+    fn = repo.func(STRATEGY, "Strategy.metrics")
+    calls = [c for c in ast.walk(fn) if isinstance(c, ast.Call) and norm(c.func).endswith("metrics.trades")]
+    stores = [n for n in ast.walk(fn) if isinstance(n, ast.Assign) and isinstance(n.targets[0], ast.Subscript) and "_cached_metrics" in norm(n.targets[0].value)]
+    if not calls:
+        raise AnalysisError("Strategy.metrics: call of metrics.trades not found")
+    if not stores:
+        rep.instance(rid, "no-memo", {"memoised": False})
+        rep.floor(rid, 1)
+        return
+    key = stores[0].targets[0].slice
+    local = {n.targets[0].id: n.value for n in ast.walk(fn) if isinstance(n, ast.Assign) and isinstance(n.targets[0], ast.Name)}
+    seen = 0
+    while isinstance(key, ast.Name) and key.id in local and seen < 4:
+        key = local[key.id]
+        seen += 1
+    ktxt = norm(key)
+    missing = [norm(a) for a in calls[0].args if norm(a) not in ktxt]
+    if missing:
+        rep.violation(rid, "strategy-metrics|memo-key", f"Strategy.metrics memoises metrics.trades({', '.join(norm(a) for a in calls[0].args)}) under the key `{ktxt}`, which does not depend on "
+                                                        f"{missing}: once computed, the value is served again although those inputs have changed")
+    rep.instance(rid, "memo-key", {"key": ktxt, "arguments": [norm(a) for a in calls[0].args]})
+    rep.floor(rid, 1)
 
 
 def check_ratio_constants(repo, rep):
@@ -412,6 +484,8 @@ def run(repo: Repo, rep, tier: str):
     rep.exhaustive = True
     rep.assume("pandas is modelled for the operations metrics.trades uses (from_records, column selection, boolean row selection, len/sum/mean/min/max/to_numpy)")
     rep.guarded(check_trades, repo, rep, tier)
+    rep.guarded(check_streaks_chronological, repo, rep)
+    rep.guarded(check_strategy_metrics_memo, repo, rep)
     rep.guarded(check_ratio_constants, repo, rep)
     rep.guarded(check_equity_sampling, repo, rep)
     rep.guarded(check_equity_sample_times, repo, rep)
